@@ -720,6 +720,13 @@ class Verifier(Exec):
                 env[p['name']] = ('lazy', (lambda n_: (lambda st_: self.deref_free(st_, n_)))(p['name']))
         for gn_ in getattr(self, 'ghost_vars', []):
             env[gn_] = ('lazy', (lambda n_: (lambda st_: st_.ghost.get('gv:' + n_, ZERO)))(gn_))
+        # contracts written before a local was renamed: the old name denotes the renamed variable
+        for on_, nn_ in (getattr(self, 'local_alias', None) or {}).items():
+            if nn_ in env and on_ not in env:
+                env[on_] = env[nn_]
+                if ('&' + nn_) in env:
+                    env['&' + on_] = env['&' + nn_]
+                self.ctx.notes.append('local %s was renamed to %s since the contracts were locked; the contract is read with the new name' % (on_, nn_))
         return env
 
     def deref_free(self, st, n):
@@ -747,6 +754,9 @@ class Verifier(Exec):
             env[p['name']] = ('lazy', (lambda n_: (lambda st_: self.deref_free(st_, n_)))(p['name']))
         for gn_ in getattr(self, 'ghost_vars', []):
             env[gn_] = ('lazy', (lambda n_: (lambda st_: st_.ghost.get('gv:' + n_, ZERO)))(gn_))
+        for on_, nn_ in (getattr(self, 'local_alias', None) or {}).items():
+            if nn_ in env and on_ not in env:
+                env[on_] = env[nn_]
         return env
 
     def eval_clause(self, clause, st, env, old=None, what=''):
@@ -1502,6 +1512,9 @@ class Verifier(Exec):
             env[n] = a
         for n, b in zip(fvnames, bindings):
             env[n] = b
+        for on_, nn_ in ((getattr(self, 'alias_resolver', None) or (lambda c_: {}))(callee) or {}).items():
+            if nn_ in env and on_ not in env:
+                env[on_] = env[nn_]          # the callee's parameter was renamed since its contract was locked
         # preconditions
         for i, cl in enumerate(spec.requires):
             t = self.eval_clause(cl, st, env, None, 'pre of %s' % callee)
@@ -2006,8 +2019,11 @@ class Verifier(Exec):
                 self.srclines = []
         if line - 1 >= len(self.srclines):
             return False
+        ltext_ = self.srclines[line - 1]
+        for on_, nn_ in (getattr(self, 'local_alias', None) or {}).items():
+            ltext_ = re.sub(r'\b%s\b' % re.escape(nn_), on_, ltext_)
         for anchor, reason in spec.cuts:
-            if anchor in self.srclines[line - 1]:
+            if anchor in ltext_:
                 self.cut_reason = reason
                 return True
         return False
@@ -2024,6 +2040,9 @@ class Verifier(Exec):
         if line - 1 >= len(self.srclines):
             return
         text = self.srclines[line - 1]
+        for on_, nn_ in (getattr(self, 'local_alias', None) or {}).items():
+            # anchors quote source text: read the line with the old names
+            text = re.sub(r'\b%s\b' % re.escape(nn_), on_, text)
         for anchor_, gname_, gexpr_ in getattr(self, 'ghost_updates', []):
             # (an assignment runs once when the path comes to the line from another line: a condition like
             #  `a && b` spreads one source line over several blocks)
